@@ -87,11 +87,24 @@ REJ, ALIAS = 9, 10            # pool[REJ] is rejected by the trait, pool[ALIAS] 
 MODES = {"none": ComparisonMode.none, "identity": ComparisonMode.identity, "equality": ComparisonMode.equality}
 
 
+FRESH = []        # objects outside the pool (defaults produced afresh), in order of first appearance: atoms 1000, 1001, ...
+
+
+class FreshDefault:
+    """A default value that is a new, unequal object each time it is produced."""
+
+
 def atom(v):
     for i, p in enumerate(POOL):
         if v is p:
             return i
-    return 999
+    if v is Marker:
+        return 999
+    for i, p in enumerate(FRESH):
+        if v is p:
+            return 1000 + i
+    FRESH.append(v)
+    return 1000 + len(FRESH) - 1
 
 
 def old_atom(v):
@@ -138,6 +151,7 @@ class PickOriginal(Pick):
 LOG = []          # (hid, old, new) of the current operation
 SINK = []
 RAISES = set()
+RAISE_KIND = ["HandlerError"]
 
 
 class HandlerError(Exception):
@@ -147,6 +161,8 @@ class HandlerError(Exception):
 def record(hid, old, new):
     LOG.append([hid, old_atom(old), atom(new)])
     if hid in RAISES:
+        if RAISE_KIND[0] == "TraitError":      # what a handler raises when it assigns an invalid value to some trait
+            raise TraitError("handler %d" % hid)
         raise HandlerError(hid)
 
 
@@ -167,13 +183,13 @@ def make_trait(kind, mode, default, orig=False, variant=""):
     cls_t = PickOriginal if orig else Pick
     if variant == "any":              # built-in Any: no validate function at all (the `validate == NULL` branches)
         return Any(POOL[default], comparison_mode=MODES[mode]) if kind == "normal" else Event()
-    if variant == "ddef" and kind == "normal":      # dynamic default: _x_default method instead of a constant
+    if variant in ("ddef", "fresh-eq", "fresh-ne") and kind == "normal":      # dynamic default: _x_default method
         return cls_t(comparison_mode=MODES[mode])
     return cls_t(default_value=POOL[default], comparison_mode=MODES[mode]) if kind == "normal" else Event(Pick())
 
 
-def make_class(kind, mode, default, statics, orig=False, variant="", build="", sibling=False):
-    key = (kind, mode, default, tuple(sorted(statics)), bool(orig), variant, build, sibling)
+def make_class(kind, mode, default, statics, orig=False, variant="", build="", sibling=False, subclass=False):
+    key = (kind, mode, default, tuple(sorted(statics)), bool(orig), variant, build, sibling, subclass)
     if key in _classes:
         return _classes[key]
     if build.startswith("derived-") and kind == "normal":
@@ -187,13 +203,17 @@ def make_class(kind, mode, default, statics, orig=False, variant="", build="", s
         if not sibling:
             ct = make_trait(kind, mode, default, orig, variant).as_ctrait()
             _shared[key] = ct
-        ct = _shared[key[:-1] + (False,)]
+        ct = _shared[key[:-2] + (False, subclass)]
         ns = {"x": ct, "y": ct}
     else:
         ns = {"x": make_trait(kind, mode, default, orig, variant), "y": make_trait(kind, mode, default, orig, variant)}
     ns["e"] = Event()                 # another trait of another kind on the same object (same anytrait wrapper)
     if variant == "ddef" and kind == "normal":
         ns["_x_default"] = (lambda self, d=default: POOL[d])
+    if variant == "fresh-eq" and kind == "normal":       # produced afresh each time, all equal: what List() / Dict() defaults are
+        ns["_x_default"] = (lambda self: [])
+    if variant == "fresh-ne" and kind == "normal":       # produced afresh each time, all different (Instance(X, ()) style)
+        ns["_x_default"] = (lambda self: FreshDefault())
     if "any" in statics:
         def _anytrait_changed(self, name, old, new):
             if name == "x":
@@ -217,10 +237,20 @@ def make_class(kind, mode, default, statics, orig=False, variant="", build="", s
         def _decorated_obs(self, event):
             record(4, event.old, event.new)
         ns["_decorated_obs"] = _decorated_obs
+    if "dobsx" in statics:           # a static handler migrated to observe WITHOUT renaming it: @observe("x") def _x_changed
+        @observe("x")
+        def _x_changed(self, event):
+            if hasattr(event, "old") and hasattr(event, "new"):
+                record(5, event.old, event.new)
+            else:                    # called like a static handler, with the bare new value
+                record(5, Marker, event)
+        ns["_x_changed"] = _x_changed
     cls = type(HasTraits)("H", (HasTraits,), ns)
+    if subclass:
+        cls = type(HasTraits)("S", (cls,), {})       # the handlers are INHERITED by the class under test
     _classes[key] = cls
     if build == "shared" and not sibling:
-        make_class(kind, mode, default, statics, orig, variant, build, sibling=True)     # built from the same CTrait object
+        make_class(kind, mode, default, statics, orig, variant, build, sibling=True, subclass=subclass)   # same CTrait object
     return cls
 
 
@@ -306,9 +336,11 @@ def attach(kind, hid, remove=False):
 
 def run_case(case):
     a = make_class(case["kind"], case["mode"], case["default"], case["statics"], case.get("orig", False),
-                   case.get("variant", ""), case.get("build", ""))()
+                   case.get("variant", ""), case.get("build", ""), subclass=bool(case.get("subclass")))()
+    del FRESH[:]
     RAISES.clear()
     RAISES.update(case["raises"])
+    RAISE_KIND[0] = case.get("raise_kind", "HandlerError")
     CUR.clear()
     CUR.update(a=a, reg={}, kinds={}, live=set())
     REACT.clear()
@@ -372,7 +404,15 @@ def main():
     cases = dlib.load()
     eq, ne = tables()
     if "--tables" in sys.argv:
-        dlib.dump({"eq": eq, "ne": ne, "validate": [None if i == REJ else (0 if i == ALIAS else i) for i in range(len(POOL))]})
+        fresh = {}
+        for name, mk in (("fresh-eq", lambda: []), ("fresh-ne", FreshDefault)):
+            d, d2 = mk(), mk()
+            fresh[name] = {
+                "eq": {"row": [cmp3(lambda p=p: d == p) for p in POOL], "col": [cmp3(lambda p=p: p == d) for p in POOL],
+                       "other": cmp3(lambda: d == d2), "self": cmp3(lambda: d == d)},
+                "ne": {"row": [cmp3(lambda p=p: d != p) for p in POOL], "col": [cmp3(lambda p=p: p != d) for p in POOL],
+                       "other": cmp3(lambda: d != d2), "self": cmp3(lambda: d != d)}}
+        dlib.dump({"fresh": fresh, "eq": eq, "ne": ne, "validate": [None if i == REJ else (0 if i == ALIAS else i) for i in range(len(POOL))]})
         return
     res = []
     for c in cases:
